@@ -815,6 +815,15 @@ class ClientSession:
                             headers.popall(hdrs.EXPECT, None)
                             if headers.get(hdrs.CONTENT_LENGTH):
                                 headers.pop(hdrs.CONTENT_LENGTH)
+                            # ... and so is what described it.
+                            for name in (
+                                hdrs.CONTENT_TYPE,
+                                hdrs.CONTENT_ENCODING,
+                                hdrs.CONTENT_LANGUAGE,
+                                hdrs.CONTENT_LOCATION,
+                                hdrs.CONTENT_MD5,
+                            ):
+                                headers.popall(name, None)
                         else:
                             # For 307/308, always preserve the request body
                             # For 301/302 with non-POST methods, preserve the request body
